@@ -12,6 +12,8 @@ COMPONENTS = {
     "gen": "comp_gen",
     "spacing": "comp_spacing",
     "spnn": "comp_spacing:Spnn",
+    "crowd3": "comp_crowd",
+    "trunc": "comp_trunc",
 }
 
 TRUSTED_BASE = [
@@ -128,5 +130,29 @@ PROPERTIES = {
         "rule": "point sets of 2..30 points, 1..5 objectives (tie-rich grids, continuous at three scales, equally spaced lines, a constant objective, large offsets, injected duplicates), metrics cityblock / euclidean / chebyshev, all ideal / nadir / pf settings (none, both bounds, pf only, pf = F, pf + one bound, all three), each case also evaluated on a permuted, a translated and a scaled copy; distinct = hash; non-trivial = spacing > 0",
         "explanation": "theorems spacing_nonneg, spacing_zero_of_equal, spacingSq_perm, cityblock/chebyshev/sqEuclid_translate, cityblock_scale, spacingSq_scale, spacing_scale, secondSmallest_mem, normCoord_eq; correspondence: the value equals the Lean model at Float within 1e-9 relative (pdist / mean summation order is not replicated bit for bit); the oracle is a direct implementation of the definition",
         "assumptions": ["sqrt is an abstract function with sqrt 0 = 0, non-negativity and sqrt(c*c*x) = c*sqrt x", "scipy pdist computes the named metrics"],
+    },
+    "C13": {
+        "components": [("crowd3", 500, 12000)],
+        "parallel": True,
+        "rule": "non-dominated fronts of 1..40 points (thorough: ..200), 2..5 objectives: simplex-like and spherical continuous fronts, grid-valued fronts (coordinate and distance ties), a constant objective, tied extremes, badly scaled objectives, fronts with duplicates; n_remove = 0, 1 or uniform in 0..N; each case is evaluated by the compiled raw kernel, the pure-Python raw function, and through get_crowding_function(label).do in a process with and without the compiled extensions; compiled pcd with >= 3 objectives runs in isolated worker processes and only where the Lean kernel model predicts no out-of-bounds index; distinct = hash; non-trivial = more than 2 points and n_remove > 1",
+        "explanation": "theorems cdSorted_wellformed, cdSorted_ends_top, sumExt_wellformed, nnProduct_nonneg, mnnScratch_extremes_top (well-formedness of cd and of the pruning definitions); the compiled kernels are transcribed statement by statement with checked indexing (lean/PymoodeModel/Metrics/Kernel.lean) and *executed* per input: memory safety is decided per record by that interpreter, not proved for all inputs (partial); correspondence: cd / pcd / mnn / 2nn values of both engines equal the models bit for bit (ce: 1e-9), caller's array compared before/after; definitions checked against an independent greedy reference on tie-free fronts",
+        "assumptions": ["Cython semantics: boundscheck=False, wraparound=False make A[i,j] raw pointer arithmetic", "np.argpartition tie order is unspecified: compiled mnn/2nn values are not compared on fronts with distance ties",
+                        "kernel memory safety for all inputs is NOT proved; known findings F2-F4 are genuine out-of-bounds accesses"],
+    },
+    "C14": {
+        "components": [("crowd3", 500, 12000), ("spnn", 200, 6000), ("trunc", 150, 3000)],
+        "parallel": True,
+        "rule": "non-dominated fronts of 1..40 points (thorough: ..200), 2..5 objectives: simplex-like and spherical continuous fronts, grid-valued fronts (coordinate and distance ties), a constant objective, tied extremes, badly scaled objectives, fronts with duplicates; n_remove = 0, 1 or uniform in 0..N; each case is evaluated by the compiled raw kernel, the pure-Python raw function, and through get_crowding_function(label).do in a process with and without the compiled extensions; compiled pcd with >= 3 objectives runs in isolated worker processes and only where the Lean kernel model predicts no out-of-bounds index; distinct = hash; non-trivial = more than 2 points and n_remove > 1",
+        "explanation": "theorems: the pure-Python engine is the definition itself (Prune.lean is both); cd/ce are engine-independent; C20.secondSmallest_mem for the spacing helper; the two engines are compared input by input on the real code (values within 1e-9, infinities at the same points) and each against its own bit-exact Lean model; the compiled spacing helper is compared with the NumPy expression of SpacingIndicator",
+        "assumptions": ["where the compiled pcd kernel is undefined (F2/F3) there is nothing to compare",
+                        "compiled mnn/2nn with distance ties and n_remove > 1 are not compared (argpartition tie order)"],
+    },
+    "C15": {
+        "components": [("trunc", 500, 12000), ("surv", 400, 8000)],
+        "gen_args": {"surv": {"classes": ("rnc",)}},
+        "parallel": True,
+        "rule": "single non-dominated fronts of 2M+2..36 points (thorough ..120), 2..4 objectives (continuous simplex / sphere fronts, grid-valued, constant objective, tied extremes, duplicates, badly scaled), truncated by RankAndCrowding to n_survive in [2M, N) (two thirds) or [1, N), five metrics, compiled engine in-process (pcd with >= 3 objectives only where the kernel model predicts no out-of-bounds index), a third also in the pure-Python engine in a worker process with the same seed; plus the mixed-front survival records of C03; distinct = hash; non-trivial = a front was cut",
+        "explanation": "theorems take_keeps_top, boundary_retained, cdSorted_top_count, dropped_smallest (+ C13 extremes / well-formedness); the n_remove forwarded to the crowding function and the crowding values it returned are checked against the Lean metric models inside every survival record; the dropped set is compared with an independent one-at-a-time pruning reference on tie-free fronts (greedy equivalence is not proved: partial)",
+        "assumptions": ["descending argsort contract (checked on every record)", "greedy-pruning equivalence rests on the reference comparison, not on a theorem"],
     },
 }
